@@ -134,6 +134,13 @@ CHECKS = {
         "Trusted: reference framing (split on LF, UTF-8 with replacement); the clock is stubbed. KNOWN finding F16 (cross-line order of deferred commands in the threaded flavour) is counted, printed as KNOWN-FINDING and does not fail the check; any other difference does.",
         "DESIGN.md §2 C19",
     ),
+    "C16": (
+        "exploration",
+        "harness-owned thread schedules: sys.settrace line-level cooperative scheduler with stateless DFS over ALL interleavings up to a pre-emption bound, plus Hypothesis-drawn unbounded schedules; oracle over the write log of fake connection objects",
+        "Six scenarios (send vs lost-with-error / lost-clean / disconnect / lost-then-reconnected, two senders, producers vs the real poll loop) are explored exhaustively up to 2 (thorough 3) pre-emptions at source-line granularity of mysensors/transport.py and task.py; per schedule: no exception, command written at most once, only to a connection open at that instant, queue order preserved. Found F11 in all four disrupt scenarios on the pinned tree.",
+        "Trusted: line granularity (not bytecode); C-level atomicity of deque operations; fake connection writes are atomic; the send lock is replaced by a scheduler-aware lock.",
+        "DESIGN.md §2 C16",
+    ),
 }
 
 NOT_YET = {}
